@@ -159,6 +159,15 @@ class Categorize(Factory, Container):
         out._emptyBinsName = self._binsName()
         return out
 
+    def _adoptBin(self, theirs):
+        """A bin that only the other side of a merge has: booked from this side's template, like a bin created by
+        ``fill``, so that it carries this side's sub-quantities and can still be filled."""
+        if self.value is None:
+            return theirs.copy()
+        mine = self.value.zero()
+        mine += theirs
+        return mine
+
     @inheritdoc(Container)
     def __add__(self, other):
         if isinstance(other, Categorize):
@@ -177,7 +186,7 @@ class Categorize(Factory, Container):
                 elif k in self.bins:
                     out.bins[k] = self.bins[k].copy()
                 else:
-                    out.bins[k] = other.bins[k].copy()
+                    out.bins[k] = self._adoptBin(other.bins[k])
             return out.specialize()
 
         raise ContainerException(f"cannot add {self.name} and {other.name}")
@@ -194,7 +203,7 @@ class Categorize(Factory, Container):
                 if k in self.bins and k in other.bins:
                     self.bins[k] += other.bins[k]
                 elif k not in self.bins and k in other.bins:
-                    self.bins[k] = other.bins[k].copy()
+                    self.bins[k] = self._adoptBin(other.bins[k])
             return self
         raise ContainerException(f"cannot add {self.name} and {other.name}")
 
